@@ -79,6 +79,11 @@ class DefaultList(Generic[T]):
     def __str__(self) -> str:
         return str(self._list)
 
+    def __eq__(self, other: object) -> bool:
+        if not isinstance(other, DefaultList):
+            return NotImplemented
+        return self._list == other._list
+
 
 class Function:
     """
@@ -189,6 +194,15 @@ class Function:
         )
         return "\n".join(parts)
 
+    def __eq__(self, other: object) -> bool:
+        if not isinstance(other, Function):
+            return NotImplemented
+        return (
+            self._value == other._value
+            and self._preimage_count == other._preimage_count
+            and self._infinity_count == other._infinity_count
+        )
+
 
 class TableMethod:
     def __init__(self) -> None:
@@ -201,6 +215,11 @@ class TableMethod:
         self._processing_queue: Deque[int] = Deque()
         self._current_gap: Tuple[int, int] = (1, 1)
         self._rule_holding_extra_terms: Set[int] = set()
+
+    def __eq__(self, other: object) -> bool:
+        if not isinstance(other, TableMethod):
+            return NotImplemented
+        return self.__dict__ == other.__dict__
 
     @property
     def function(self) -> Dict[int, Optional[int]]:
@@ -632,6 +651,16 @@ class RuleDBForest(RuleDBAbstract):
         self.table_method = TableMethod()
         self._already_empty: Set[int] = set()
         self._rule_cache = tuple(rule_cache)
+
+    def __eq__(self, other: object) -> bool:
+        """Check if all stored information is the same."""
+        if not isinstance(other, RuleDBForest):
+            return NotImplemented
+        return (
+            self.reverse == other.reverse
+            and self.table_method == other.table_method
+            and self._already_empty == other._already_empty
+        )
 
     # Implementation of RuleDBAbstract
 
